@@ -43,7 +43,7 @@ func (e *Engine) pickTarget(c *cursor, self *MEnt, allowDead bool) ecs.Entity {
 		}
 	}
 	switch {
-	case sub < 12:
+	case sub < 12 && !e.P.TargetsOnly:
 		return ecs.Entity{}
 	case sub < 22 && self != nil:
 		return self.H
@@ -200,6 +200,16 @@ func (e *Engine) genCreation(c *cursor, op *COp) {
 				op.Target = e.pickTarget(c, nil, true)
 			}
 		}
+	}
+	if e.P.TargetsOnly && rel >= 0 && !(op.Rel >= 0 && op.HasTgt && !op.Target.IsZero()) {
+		// plans that never produce a relation without a target: the relation component is left out
+		var a2 []int
+		for _, t := range op.Add {
+			if t != rel {
+				a2 = append(a2, t)
+			}
+		}
+		op.Add, op.Rel, op.HasTgt, op.Target = a2, -1, false, ecs.Entity{}
 	}
 	if op.With {
 		op.Vals = e.genVals(op.Add)
@@ -507,7 +517,11 @@ func (e *Engine) opRemove(c *cursor) *Violation {
 	if me != nil {
 		op.Ent = me.H
 		// bias: remove relation targets more often than chance
-		if c.n(100) < 35 && len(e.M.Targets) > 0 {
+		if e.P.TargetsOnly && e.M.Targets[me.H] {
+			e.St.Skipped++ // its children would be left with a relation and no target
+			return nil
+		}
+		if c.n(100) < 35 && len(e.M.Targets) > 0 && !e.P.TargetsOnly {
 			ts := sortedEntities(e.M.Targets)
 			for i := 0; i < len(ts); i++ {
 				t := ts[(c.n(1<<20)+i)%len(ts)]
@@ -647,6 +661,19 @@ func (e *Engine) opExchange(c *cursor) *Violation {
 				op.Rel = rels[c.n(len(rels))]
 				e.St.Probes["builder-with-relation-no-target"]++
 			}
+		}
+	}
+	if e.P.TargetsOnly && resRel >= 0 {
+		newTgt := me.Target
+		if setOf(op.Add)&(1<<uint(resRel)) != 0 {
+			newTgt = ecs.Entity{}
+		}
+		if op.HasTgt && op.Rel == resRel {
+			newTgt = op.Target
+		}
+		if newTgt.IsZero() {
+			e.St.Skipped++
+			return nil
 		}
 	}
 	if op.Variant == "Assign" && len(op.Add) == 0 {
